@@ -29,11 +29,12 @@ MANIFEST = {
             "-inf -- equals the SUM over independent dimensions of the textbook log-density for EVERY real point, every dimension and "
             "all valid parameters, with -inf exactly outside the support (edges inclusive for Uniform, x <= 0 for LogNormal, x < 0 for "
             "Exponential); log_prob never returns NaN for any input class; the mixture log-density is ln sum_i (w_i/sum w) exp lp_i for "
-            "any number of components and invariant under rescaling the weights; MultivariateNormal's log-density is "
-            "-1/2 |z|^2 - sum ln L_ii - d/2 ln 2 pi with L z = x - mu (forward substitution proved to solve the triangular system); "
+            "any number of components and invariant under rescaling the weights; MultivariateNormal's log-density is the textbook "
+            "-1/2 (x-mu)^T Sigma^-1 (x-mu) - 1/2 ln det Sigma - d/2 ln 2 pi for Sigma = L L^T in any dimension (forward substitution solves L z = x - mu; "
+            "det Sigma = (prod L_ii)^2 > 0 by MathComp's determinant; |z|^2 = (x-mu)^T M (x-mu) for every M with Sigma M = I); covariance accessor = L L^T; "
             "samplers: the push-forward map used for sampling is inverted by the map log_prob uses; accessors return the constructor values; the class "
-            "called with raw arguments of any broadcastable shapes is the family on arrays broadcast by NumPy's index rule. PARTIAL: identification of |z|^2 with "
-            "(x-mu)^T Sigma^-1 (x-mu) and of prod L_ii^2 with det Sigma is not proved; that a jax.random primitive follows its law is "
+            "called with raw arguments of any broadcastable shapes is the family on arrays broadcast by NumPy's index rule. NOT proved: that the constructor's "
+            "jnp.linalg.cholesky returns L with L L^T = covariance (tied by U5: covariance accessor vs constructor argument); that a jax.random primitive follows its law is "
             "assumed (KS-tested only); float rounding/overflow is not modelled. The model is tied to /repo on every run by U1-U5.",
     "note": "Trusted: Coq kernel; extraction (ExtrOcamlBasic); ocaml/drv_dens.ml + fops.ml (libm, Lanczos lgamma); harness; numpy "
             "broadcasting only for building scipy references. Guards: 0 < scale, 0 < df, 0 < rate, minval < maxval, positive weights, "
@@ -877,7 +878,7 @@ def run_mvn(ctx):
                     ctx.violation(sig=f"MultivariateNormal.log_prob:{'oracle' if not oko else 'model'}",
                                   what=f"MultivariateNormal(d={d}).log_prob {v!r}: " + (f"scipy multivariate_normal.logpdf {float(ref[b])!r}" if not oko else f"model {out[b]}"),
                                   case={"kind": "mvn", **cjp, "x": hx(x[b])}, found_input=not oko, unit="U5-mvn", expected={"model": out[b], "scipy": float(ref[b])},
-                                  observed=v, broken="correspondence U5 / C05_mvn_spec_partial")
+                                  observed=v, broken="correspondence U5 / C05_mvn_spec")
             # accessors
             covm = np.array([common_fparse(t) for t in out[nb].split(",")]).reshape(d, d)
             covg = np.asarray(dist.covariance, dtype=np.float64)
@@ -918,10 +919,52 @@ def run_mvn(ctx):
                               case={"kind": "mvn-acc", **cjp, "key": np.asarray(key).tolist()}, found_input=True, unit="U5-mvn", observed=bad)
 
 
+def run_large_events(ctx):
+    """Independent dimensions in LARGE numbers (a 600-vector, a 28x28 matrix) with ordinary scales whose product leaves the double
+    range: the joint log-density is the SUM of the marginals' (seeded change C05c computed log|prod scale|)."""
+    r = ctx.rng
+    jnp = S["jnp"]
+    u = ctx.unit("O1-large-event", "search oracle: log_prob of every family with event shapes (600,) and (28,28), scales in [0.05,0.5] or [5,50], vs the "
+                                   "summed scipy reference, 1e-9 rel; non-trivial = the product of the scales under/overflows in float64")
+    for fam in FAMS:
+        for shape in ((600,), (28, 28)):
+            for lo_, hi_ in ((0.05, 0.5), (5.0, 50.0)):
+                if fam == "exponential":
+                    P = {"rate": r.uniform(lo_, hi_, shape)}
+                elif fam == "uniform":
+                    mn = r.normal(0, 1, shape)
+                    P = {"minval": mn, "maxval": mn + r.uniform(lo_, hi_, shape)}
+                else:
+                    P = {"loc": r.normal(0, 1, shape), "scale": r.uniform(lo_, hi_, shape)}
+                    if fam == "lognormal":
+                        P["scale"] = r.uniform(0.05, 0.5, shape) if lo_ < 1 else r.uniform(1.5, 3.0, shape)
+                    if fam == "studentt":
+                        P["df"] = r.uniform(2.0, 9.0, shape)
+                dist = build(fam, P)
+                B = bparams(fam, P)
+                z = base_draw(fam, B, shape, r)
+                if fam == "exponential":
+                    x = z / P["rate"]
+                elif fam == "uniform":
+                    x = P["minval"] + (P["maxval"] - P["minval"]) * z
+                elif fam == "lognormal":
+                    x = np.exp(P["loc"] + P["scale"] * z)
+                else:
+                    x = P["loc"] + P["scale"] * z
+                v = float(dist.log_prob(jnp.asarray(x)))
+                rv = float(reference_logpdf(fam, P, x))
+                u.count((fam, shape, lo_, v), nontrivial=True, tag=fam)
+                if not (np.isfinite(v) and np.isfinite(rv) and abs(v - rv) <= 1e-9 * max(1.0, abs(rv))):
+                    ctx.violation(sig=f"{FAMS[fam][0]}.log_prob:oracle:large-event", what=f"{FAMS[fam][0]} with event shape {shape} and scales in [{lo_},{hi_}]: "
+                                  f"log_prob = {v!r} but the sum of the marginal scipy log-densities is {rv!r}",
+                                  case=dict(unit="large-event", fam=fam, shape=list(shape), scale_range=[lo_, hi_], seed=int(ctx.seed)), found_input=True,
+                                  unit=u.name, expected=rv, observed=v, broken="O1-large-event / C05_joint_is_product")
+
+
 def run(ctx):
     import time
     _setup()
-    for name, fn in (("families", run_families), ("ks", run_ks), ("mixtures", run_mixtures), ("mvn", run_mvn)):
+    for name, fn in (("families", run_families), ("ks", run_ks), ("mixtures", run_mixtures), ("mvn", run_mvn), ("large-events", run_large_events)):
         t0 = time.time()
         fn(ctx)
         ctx.notes.append(f"phase {name}: {time.time() - t0:.1f}s")
